@@ -104,7 +104,10 @@ func variantsWorker(req N) (resp N) {
 	prog := req["ast"].([]any)
 	table := req["table"].(map[string]any) // gap class -> list of insertion kinds
 	texts := req["texts"].(map[string]any) // insertion kind -> text
-	r := &ast.Renderer{Full: true}
+	// fully parenthesised, or (req "min") with the minimal parentheses: only there do operator chains meet the
+	// insertions (a break after the first operator of `a - b - c` must not re-associate it)
+	min, _ := req["min"].(bool)
+	r := &ast.Renderer{Full: !min}
 	r.Stmts(prog)
 	base := r.Source()
 	baseTree, baseCode, baseErr := treeAndCode(base)
@@ -316,7 +319,7 @@ func main() {
 		}
 		for i, r := range rows {
 			if mode == "variants" {
-				reqs = append(reqs, N{"ast": r["ast"], "table": table["table"], "texts": table["texts"], "seed": *seed*100000 + i})
+				reqs = append(reqs, N{"ast": r["ast"], "table": table["table"], "texts": table["texts"], "seed": *seed*100000 + i, "min": r["min"]})
 			} else {
 				reqs = append(reqs, N{"ast": r["ast"], "seed": *seed*100000 + i, "n": *nmut, "witness": *witness})
 			}
